@@ -73,12 +73,32 @@ var severity = map[int]int{clOK: 0, clValidation: 1, clClient: 2, clDeadline: 3,
 	clPanicEscaped: 7, clOverrun: 8, clMemory: 9, clCrash: 10}
 
 const (
-	clientTimeout  = 25 * time.Second // the server's own request timeout is 3 s
-	overrunLimit   = 12 * time.Second // 4 x the request deadline: tolerant of a loaded machine
+	baseOverrun    = 12 * time.Second // 4 x the server's request deadline (3 s) on an idle machine
 	memGrowthLimit = 768 << 20        // heap growth during one case
 	memHardLimit   = 3 << 30
 	childRestart   = 500 // cases per child (the memory datastore never frees models)
 )
+
+// The machine is shared: wall-clock limits are scaled by the oversubscription factor
+// loadavg(1 min) / number of CPUs, read at the start of every request.
+func loadFactor() float64 {
+	b, err := os.ReadFile("/proc/loadavg")
+	if err != nil {
+		return 1
+	}
+	var l1 float64
+	fmt.Sscanf(string(b), "%f", &l1)
+	f := l1 / float64(runtime.NumCPU())
+	if f < 1 {
+		return 1
+	}
+	if f > 20 {
+		return 20
+	}
+	return f
+}
+
+func overrunLimit() time.Duration { return time.Duration(float64(baseOverrun) * loadFactor()) }
 
 type caseDesc struct {
 	G     string `json:"g"`
@@ -195,8 +215,10 @@ type stepOut struct {
 }
 
 func (c *child) send(st step) stepOut {
-	ctx, cancel := context.WithTimeout(context.Background(), clientTimeout)
+	limit := overrunLimit()
+	ctx, cancel := context.WithTimeout(context.Background(), limit+time.Second)
 	defer cancel()
+	c.ts.last.Store("")
 	rec0, cap0 := c.ts.recovered.Load(), c.ts.captured.Load()
 	t0 := time.Now()
 	var out stepOut
@@ -253,7 +275,7 @@ func (c *child) send(st step) stepOut {
 	case c.ts.captured.Load() > cap0:
 		out.class = clPanicCaptured
 	}
-	if out.dur > overrunLimit && severity[out.class] < severity[clOverrun] {
+	if out.dur > limit && severity[out.class] < severity[clOverrun] {
 		out.class = clOverrun
 	}
 	return out
@@ -318,6 +340,8 @@ func (c *child) runCase(d caseDesc) caseResult {
 		res.Note = clip(strings.Join(notes, " ; "), 700)
 		if b.tok != nil {
 			res.Rec = tokRecord(b.tok, first)
+		} else if b.abs != "" {
+			res.Rec = fmt.Sprintf("7 %d %d %s", worst, len(b.steps), b.abs)
 		} else {
 			res.Rec = fmt.Sprintf("1 %d %d", worst, len(b.steps))
 		}
@@ -332,7 +356,11 @@ func (c *child) runCase(d caseDesc) caseResult {
 		res.Class = clMemory
 		res.Note += fmt.Sprintf(" ; heap grew by %d MB", (peak-base)>>20)
 		if b.tok == nil && b.direct == nil {
-			res.Rec = fmt.Sprintf("1 %d %d", clMemory, len(b.steps))
+			if b.abs != "" {
+				res.Rec = fmt.Sprintf("7 %d %d %s", clMemory, len(b.steps), b.abs)
+			} else {
+				res.Rec = fmt.Sprintf("1 %d %d", clMemory, len(b.steps))
+			}
 		}
 	}
 	return res
@@ -385,7 +413,7 @@ func childMain() {
 		emit(caseResult{Err: "fixture: " + err.Error()})
 		os.Exit(4)
 	}
-	c := &child{ts: ts, fx: fx, httpc: &http.Client{Timeout: clientTimeout}, sampler: time.NewTicker(10 * time.Millisecond)}
+	c := &child{ts: ts, fx: fx, httpc: &http.Client{}, sampler: time.NewTicker(10 * time.Millisecond)}
 	go c.watch()
 	emit(caseResult{Ready: true})
 	in := bufio.NewScanner(os.Stdin)
@@ -526,7 +554,7 @@ func (rn *runner) run(d caseDesc) {
 	var r caseResult
 	var err error
 	if werr == nil {
-		r, err = rn.p.read(5*clientTimeout + 60*time.Second)
+		r, err = rn.p.read(8*overrunLimit() + 120*time.Second)
 	} else {
 		err = werr
 	}
@@ -547,6 +575,9 @@ func (rn *runner) run(d caseDesc) {
 		w.Stat("gen."+d.G, 1)
 		return
 	}
+	if r.Class == clOverrun || r.Class == clMemory {
+		rn.p.served = childRestart
+	}
 	if r.Class == clMemory && r.Rec == "" {
 		r.Rec = fmt.Sprintf("1 %d 0", clMemory)
 	}
@@ -563,6 +594,7 @@ func (rn *runner) run(d caseDesc) {
 	for _, c := range r.Classes {
 		w.Stat("request."+className[c], 1)
 	}
+	w.Stat("ms."+d.G, int(r.MS))
 	if r.MS > 3500 {
 		w.Stat("slow_cases_over_3.5s", 1)
 	}
